@@ -538,16 +538,16 @@ func (ex *Exec) appendOp(fr *Frame, c *ssa.CallCommon, args []Val, st *State, re
 		ex.vc.assume(Forall([]Bound{{"r?", SInt}}, Implies(Neq(rv, rArr), Eq(Select(nh, rv), Select(h, rv)))))
 		// old elements
 		ex.vc.assume(Forall([]Bound{{"i?", SInt}}, Implies(InRange(IntLit(0), iv, SlLen(s)),
-			Eq(Select(Select(nh, rArr), Add(rOff, iv)), Select(Select(h, SlArr(s)), Add(SlOff(s), iv))))))
+			Eq(Select(Select(nh, rArr), At(res, iv)), Select(Select(h, SlArr(s)), At(s, iv))))))
 		// appended elements
 		var srcAt Term
 		if srcIsString {
 			srcAt = StrAt(src, iv)
 		} else {
-			srcAt = Select(Select(h, SlArr(src)), Add(SlOff(src), iv))
+			srcAt = Select(Select(h, SlArr(src)), At(src, iv))
 		}
 		ex.vc.assume(Forall([]Bound{{"i?", SInt}}, Implies(InRange(IntLit(0), iv, n),
-			Eq(Select(Select(nh, rArr), Add(rOff, Add(SlLen(s), iv))), srcAt))))
+			Eq(Select(Select(nh, rArr), At(res, Add(SlLen(s), iv))), srcAt))))
 		// in place: everything outside the appended window keeps its value
 		ex.vc.assume(Implies(inPlace, Forall([]Bound{{"i?", SInt}}, Implies(Or(Lt(iv, Add(rOff, SlLen(s))), Ge(iv, Add(rOff, newLen))),
 			Eq(Select(Select(nh, rArr), iv), Select(Select(h, rArr), iv))))))
@@ -585,10 +585,10 @@ func (ex *Exec) copyOp(fr *Frame, c *ssa.CallCommon, args []Val, st *State, reac
 		if srcIsString {
 			srcAt = StrAt(src, iv)
 		} else {
-			srcAt = Select(Select(h, SlArr(src)), Add(SlOff(src), iv))
+			srcAt = Select(Select(h, SlArr(src)), At(src, iv))
 		}
 		ex.vc.assume(Forall([]Bound{{"i?", SInt}}, Implies(InRange(IntLit(0), iv, n),
-			Eq(Select(Select(nh, dArr), Add(SlOff(dst), iv)), srcAt))))
+			Eq(Select(Select(nh, dArr), At(dst, iv)), srcAt))))
 		ex.vc.assume(Forall([]Bound{{"i?", SInt}}, Implies(Or(Lt(iv, SlOff(dst)), Ge(iv, Add(SlOff(dst), n))),
 			Eq(Select(Select(nh, dArr), iv), Select(Select(h, dArr), iv)))))
 		st.heaps[name] = nh
